@@ -91,7 +91,9 @@ def run(ctx: Ctx):
     # slots, and the mask that clears merged extensions, both derive (value flow) from prev_is_prefix
     merge_masks = []
     for n in own_nodes(adv.node):
-        if isinstance(n, ast.Call) and isinstance(n.func, ast.Attribute) and n.func.attr == "masked_fill" and n.args:
+        # a masked selection: t.masked_fill(mask, c) or torch.where(mask, a, b)
+        if isinstance(n, ast.Call) and n.args and ((isinstance(n.func, ast.Attribute) and n.func.attr == "masked_fill")
+                                                   or (call_name(n) == "torch.where" and len(n.args) == 3)):
             der = rda.derives(n.args[0])
             names = {d.name for d in der.defs}
             if "y_prev_lens" in names and not {"next_ind"} & names:
@@ -464,14 +466,17 @@ def _fusion_formula(ctx: Ctx, fwd, sl, pt, rel, where_f):
             continue
         gs = guards_of(pm, d.stmt)
         arm = None
+        from sa.specialise import _eval as _sp_eval, _UNK
         for t, pol in gs:
-            txt = u(t)
-            if "valid_mixture" in txt:
-                arm = "valid" if pol else "plain"
+            vv = _sp_eval(t, {"self.valid_mixture": True})
+            if "valid_mixture" in u(t) and vv is not _UNK:
+                arm = "valid" if bool(vv) == pol else "plain"
         if arm is None:
             for t, pol in gs:
-                if "lm" in u(t) and "beta" in u(t):
-                    arm = "none" if pol else arm
+                # the arm taken when there is no model
+                vv = _sp_eval(t, {"self.lm": None})
+                if vv is not _UNK and bool(vv) == pol:
+                    arm = "none"
         if arm is None:
             col.undecided(f"{where_f}::extension-score: definition at line {d.line} is under no recognised fusion guard")
             continue
